@@ -420,6 +420,7 @@ func runTCP(r *hk.Run, rng *hk.Rand) {
 		checkTCP(r, s, method, "tcp:"+shape, rng.Chance(40))
 	}
 	runTCPLimits(r)
+	runSplice(r, rng)
 }
 
 var _ = bytes.Equal
